@@ -1,6 +1,7 @@
 package harness
 
 import (
+	"fmt"
 	"sort"
 
 	"pgregory.net/rapid"
@@ -291,14 +292,17 @@ type histState struct {
 	actKeys  []uint16
 	spare    []uint16
 	steps    []Step
+	axisOut  map[string]bool // axes (sub/code) whose last generated position is not 0
 }
+
+func axisKey(a AxisDef) string { return fmt.Sprintf("%s/%d", a.Sub, a.Code) }
 
 // twinBit marks the generator's handle of a key whose code is also used by a key of another sub-handler
 // (evdev key codes end at 0x2ff). Steps always carry the real (sub-handler, code).
 const twinBit = 0x8000
 
 func newHistState(d *Desc) *histState {
-	h := &histState{d: d, down: map[uint16]bool{}, sub: map[uint16]string{}, actions: map[uint16]string{}, heldAct: map[string]bool{}}
+	h := &histState{d: d, axisOut: map[string]bool{}, down: map[uint16]bool{}, sub: map[uint16]string{}, actions: map[uint16]string{}, heldAct: map[string]bool{}}
 	seen := map[uint16]bool{}
 	for _, a := range d.Actions {
 		h.actions[a.Code] = a.Action
@@ -342,6 +346,26 @@ func newHistState(d *Desc) *histState {
 		}
 	}
 	return h
+}
+
+// scatter puts every key that is not a note key (action keys, exit-sequence keys, unmapped keys) on one of the device's
+// sub-handlers: actions and the exit sequence are configured per device by key code, whichever event node reports the key.
+// A code that is a note key of some sub-handler stays there.
+func (h *histState) scatter(t *rapid.T) {
+	subs := append(subHandlers(h.d), "Consumer Control")
+	if len(subs) <= 2 && rapid.IntRange(0, 3).Draw(t, "scatter") != 0 {
+		return
+	}
+	keys := append(append([]uint16{}, h.actKeys...), h.spare...)
+	sort.Slice(keys, func(i, j int) bool { return keys[i] < keys[j] })
+	for _, k := range keys {
+		if _, isNote := h.sub[k]; isNote {
+			continue
+		}
+		if sub := subs[rapid.IntRange(0, len(subs)-1).Draw(t, "keyOn")]; sub != "" {
+			h.sub[k] = sub
+		}
+	}
 }
 
 func (h *histState) pairComplete() (string, bool) {
@@ -410,6 +434,7 @@ func (h *histState) tap(code uint16) {
 
 func genHistory(t *rapid.T, d *Desc, o HistOpts) []Step {
 	h := newHistState(d)
+	h.scatter(t)
 	n := rapid.IntRange(1, o.MaxLen).Draw(t, "histLen")
 	var stateKeys []uint16
 	for _, c := range h.actKeys {
@@ -464,15 +489,56 @@ func genHistory(t *rapid.T, d *Desc, o HistOpts) []Step {
 			h.steps = append(h.steps, Step{T: "rep", Sub: h.sub[c], Code: c &^ twinBit, Val: 2})
 		case kind < 93 && o.UnmappedKey && len(h.spare) > 0:
 			h.toggle(h.spare[rapid.IntRange(0, len(h.spare)-1).Draw(t, "spare")])
+		case kind < 94 && len(h.down)+len(h.axisOut) > 0 && rapid.IntRange(0, 2).Draw(t, "settle") == 0:
+			// settle: everything is let go (keys in random order, axes back to rest) - a quiescent point in the middle of the history
+			var held []uint16
+			for c := range h.down {
+				held = append(held, c)
+			}
+			sort.Slice(held, func(i, j int) bool { return held[i] < held[j] })
+			var out []int
+			for i := range axes {
+				if h.axisOut[axisKey(axes[i])] {
+					out = append(out, i)
+				}
+			}
+			order := rapid.Permutation(indices(len(held)+len(out))).Draw(t, "settleOrder")
+			for _, k := range order {
+				if k < len(held) {
+					h.emitKey(held[k], 0)
+				} else {
+					a := axes[out[k-len(held)]]
+					h.steps = append(h.steps, Step{T: "abs", Sub: a.Sub, Code: a.Code, Val: 0})
+					delete(h.axisOut, axisKey(a))
+				}
+			}
 		case kind < 97 && len(axes) > 0:
 			a := axes[rapid.IntRange(0, len(axes)-1).Draw(t, "axis")]
 			var v int32
 			if a.Max == 1 {
 				v = int32(rapid.IntRange(-1, 1).Draw(t, "hat"))
 			} else {
-				v = int32(rapid.SampledFrom([]int{-32768, -20000, -16000, -100, 0, 100, 16000, 20000, 32767}).Draw(t, "stick"))
+				v = int32(rapid.SampledFrom([]int{-32768, -20000, -16000, -100, -3, -2, -1, 0, 0, 1, 2, 3, 100, 16000, 20000, 32767}).Draw(t, "stick"))
 			}
 			h.steps = append(h.steps, Step{T: "abs", Sub: a.Sub, Code: a.Code, Val: v})
+			if v != 0 {
+				h.axisOut[axisKey(a)] = true
+			} else {
+				delete(h.axisOut, axisKey(a))
+			}
+			// an axis that was pushed comes back sooner or later: often right after the next few key events
+			if v != 0 && rapid.IntRange(0, 1).Draw(t, "axisComesBack") == 0 {
+				for k := rapid.IntRange(0, 3).Draw(t, "keysMeanwhile"); k > 0 && len(actKeys)+len(h.noteKeys) > 0; k-- {
+					all := append(append([]uint16{}, h.noteKeys...), actKeys...)
+					c := all[rapid.IntRange(0, len(all)-1).Draw(t, "meanwhileKey")]
+					if o.NoPanic && h.actions[c] == "panic" {
+						continue
+					}
+					h.toggle(c)
+				}
+				h.steps = append(h.steps, Step{T: "abs", Sub: a.Sub, Code: a.Code, Val: 0})
+				delete(h.axisOut, axisKey(a))
+			}
 		case o.MidiIn:
 			ch := rapid.IntRange(0, 15).Draw(t, "midiCh")
 			note := rapid.IntRange(0, 127).Draw(t, "midiNote")
